@@ -67,6 +67,9 @@ func (*bufConn) SetReadDeadline(time.Time) error  { return nil }
 func (*bufConn) SetWriteDeadline(time.Time) error { return nil }
 
 type wireFrame struct {
+	seq    int32
+	idx    string // X-Idx metadata: which message of the session this frame is
+	sm     string
 	mtype  byte
 	secure string
 	hasSec bool
@@ -83,7 +86,7 @@ func parseFrames(b []byte) []wireFrame {
 		if err := s.ReadMessage(m); err != nil {
 			return fs
 		}
-		f := wireFrame{mtype: m.Mtype(), code: m.Status().Code()}
+		f := wireFrame{mtype: m.Mtype(), code: m.Status().Code(), seq: m.Seq(), sm: m.ServiceMethod(), idx: string(m.Meta().Peek("X-Idx"))}
 		if v := m.Meta().Peek(secure.SECURE_META_KEY); v != nil {
 			f.hasSec, f.secure = true, string(v)
 		}
@@ -107,18 +110,21 @@ type JRes struct {
 
 // current case, read by the handlers
 type caseCfg struct {
-	kind      string // call | push
-	shape     string // json | raw | pb
-	kc, ks    string
-	xSecure   string // "" = absent
-	xAccept   string
-	enforce   string // "" none, "enforce" = secure.EnforceSecure, other = literal X-Secure value
-	handlerOK bool
-	place     string // global | route
-	argMark   string
-	resMark   string
-	arg, res  interface{}
+	kind     string // call | push
+	shape    string // json | raw | pb
+	kc, ks   string
+	xSecure  string // "" = absent
+	xAccept  string
+	enforce  string // "" none, "enforce" = secure.EnforceSecure, other = literal X-Secure value
+	hkind    string // struct | func : how the server registered the handler
+	hret     string // nil | okobj | err : the *Status the handler returns
+	place    string // global | route
+	argMark  string
+	resMark  string
+	arg, res interface{}
 }
+
+func (c *caseCfg) handlerOK() bool { return c.hret != "err" }
 
 var (
 	cur      caseCfg
@@ -166,10 +172,13 @@ func applyEnforce(set func(k, v string), out erpc.Message) {
 }
 
 func handlerStatus() *erpc.Status {
-	if cur.handlerOK {
-		return nil
+	switch cur.hret {
+	case "okobj":
+		return erpc.NewStatus(erpc.CodeOK, "done", "") // a non-nil status whose code is OK
+	case "err":
+		return erpc.NewStatus(handlerCode, "handler says no", "")
 	}
-	return erpc.NewStatus(handlerCode, "handler says no", "")
+	return nil
 }
 
 type Ctl struct{ erpc.CallCtx }
@@ -199,6 +208,60 @@ type Psh struct{ erpc.PushCtx }
 func (p *Psh) Json(arg *JArg) *erpc.Status         { seen(arg); return nil }
 func (p *Psh) Pb(arg *secure.Encrypt) *erpc.Status { seen(arg); return nil }
 func (p *Psh) Raw(arg *[]byte) *erpc.Status        { seen(arg); return nil }
+
+// the same handlers registered as functions (RouteCallFunc / RoutePushFunc)
+func FnJson(c erpc.CallCtx, arg *JArg) (*JRes, *erpc.Status) {
+	seen(arg)
+	applyEnforce(c.SetMeta, c.Output())
+	r, _ := cur.res.(*JRes)
+	return r, handlerStatus()
+}
+func FnPb(c erpc.CallCtx, arg *secure.Encrypt) (*secure.Encrypt, *erpc.Status) {
+	seen(arg)
+	applyEnforce(c.SetMeta, c.Output())
+	r, _ := cur.res.(*secure.Encrypt)
+	return r, handlerStatus()
+}
+func FnRaw(c erpc.CallCtx, arg *[]byte) ([]byte, *erpc.Status) {
+	seen(arg)
+	applyEnforce(c.SetMeta, c.Output())
+	r, _ := cur.res.([]byte)
+	return r, handlerStatus()
+}
+func FpJson(c erpc.PushCtx, arg *JArg) *erpc.Status         { seen(arg); return nil }
+func FpPb(c erpc.PushCtx, arg *secure.Encrypt) *erpc.Status { seen(arg); return nil }
+func FpRaw(c erpc.PushCtx, arg *[]byte) *erpc.Status        { seen(arg); return nil }
+
+// paths of the function handlers, as returned by the router
+var fnPaths = map[string]string{}
+
+// newServer builds a server peer with every handler in both registration styles.
+func newServer(place string, ps erpc.Plugin) erpc.Peer {
+	var srv erpc.Peer
+	var rp []erpc.Plugin
+	if place == "global" {
+		srv = erpc.NewPeer(erpc.PeerConfig{}, ps)
+	} else {
+		srv = erpc.NewPeer(erpc.PeerConfig{})
+		rp = []erpc.Plugin{ps}
+	}
+	srv.RouteCall(new(Ctl), rp...)
+	srv.RoutePush(new(Psh), rp...)
+	fnPaths["call/json"] = srv.RouteCallFunc(FnJson, rp...)
+	fnPaths["call/pb"] = srv.RouteCallFunc(FnPb, rp...)
+	fnPaths["call/raw"] = srv.RouteCallFunc(FnRaw, rp...)
+	fnPaths["push/json"] = srv.RoutePushFunc(FpJson, rp...)
+	fnPaths["push/pb"] = srv.RoutePushFunc(FpPb, rp...)
+	fnPaths["push/raw"] = srv.RoutePushFunc(FpRaw, rp...)
+	return srv
+}
+
+func pathOf(c *caseCfg) string {
+	if c.hkind == "func" {
+		return fnPaths[c.kind+"/"+c.shape]
+	}
+	return "/" + map[string]string{"call": "ctl", "push": "psh"}[c.kind] + "/" + c.shape
+}
 
 // ---- one case
 
@@ -243,23 +306,79 @@ func settings(c *caseCfg) []erpc.MessageSetting {
 	return st
 }
 
-func runCase(c *caseCfg) *outcome {
+// sendOne sends message number idx of a session through the client session and waits until the
+// server is done with it (a push is followed by a plain call and a wait for the handler contexts).
+func sendOne(cs erpc.Session, serverSess func() erpc.Session, c *caseCfg, idx int) *outcome {
 	cur = *c
 	hMu.Lock()
 	hCount, hArgSeen = 0, nil
 	hMu.Unlock()
-	ps := secure.NewPlugin(srvCode, c.ks)
-	pc := secure.NewPlugin(cliCode, c.kc)
-	var srv erpc.Peer
-	if c.place == "global" {
-		srv = erpc.NewPeer(erpc.PeerConfig{}, ps)
-		srv.RouteCall(new(Ctl))
-		srv.RoutePush(new(Psh))
+	o := &outcome{}
+	id := codecOf(c.shape)
+	st := append(settings(c), erpc.WithSetMeta("X-Idx", Fmt("%d", idx)))
+	if c.kind == "call" {
+		var result interface{}
+		switch c.shape {
+		case "json":
+			result = new(JRes)
+		case "pb":
+			result = new(secure.Encrypt)
+		default:
+			result = new([]byte)
+		}
+		cmd := cs.Call(pathOf(c), c.arg, result, st...)
+		o.status = cmd.Status().Code()
+		if cmd.Status().OK() {
+			o.delivered = true
+			o.result = marshalWith(id, result)
+		}
 	} else {
-		srv = erpc.NewPeer(erpc.PeerConfig{})
-		srv.RouteCall(new(Ctl), ps)
-		srv.RoutePush(new(Psh), ps)
+		stt := cs.Push(pathOf(c), c.arg, st...)
+		o.status = stt.Code()
+		// a plain call behind the push, then wait for the server's handler contexts
+		cs.Call("/ctl/sync", []byte("{}"), new([]byte), erpc.WithBodyCodec('j'))
 	}
+	if ss := serverSess(); ss != nil {
+		erpc.VerifWaitHandlers(ss)
+	}
+	hMu.Lock()
+	o.hCount, o.hArg = hCount, hArgSeen
+	hMu.Unlock()
+	return o
+}
+
+// fillWire completes the outcome of message idx from the recorded byte streams:
+// req = client->server bytes, rep = server->client bytes.
+func fillWire(o *outcome, c *caseCfg, idx int, req, rep []byte) {
+	want := erpc.TypeCall
+	if c.kind == "push" {
+		want = erpc.TypePush
+	}
+	var seq int32
+	for _, f := range parseFrames(req) {
+		if f.mtype == want && f.idx == Fmt("%d", idx) && !o.reqSeen {
+			o.reqSeen, o.reqSec, o.reqHasSec, o.reqBody, seq = true, f.secure, f.hasSec, f.body, f.seq
+		}
+	}
+	if c.kind == "call" && o.reqSeen {
+		for _, f := range parseFrames(rep) {
+			if f.mtype == erpc.TypeReply && f.seq == seq && !o.repSeen {
+				o.repSeen, o.repSec, o.repHasSec, o.repBody = true, f.secure, f.hasSec, f.body
+			}
+		}
+	}
+	o.outHasArg = bytes.Contains(req, []byte(c.argMark))
+	o.outHasRes = bytes.Contains(req, []byte(c.resMark))
+	o.inHasRes = bytes.Contains(rep, []byte(c.resMark))
+	o.inHasArg = bytes.Contains(rep, []byte(c.argMark))
+}
+
+// runSession sends all messages of one case, one after the other, over ONE pair of sessions.
+func runSession(msgs []*caseCfg) []*outcome {
+	c0 := msgs[0]
+	ps := secure.NewPlugin(srvCode, c0.ks)
+	pc := secure.NewPlugin(cliCode, c0.kc)
+	srv := newServer(c0.place, ps)
 	cli := erpc.NewPeer(erpc.PeerConfig{}, pc)
 	defer srv.Close()
 	defer cli.Close()
@@ -274,64 +393,22 @@ func runCase(c *caseCfg) *outcome {
 	if ss == nil || cs == nil {
 		Must(fmt.Errorf("could not set up the pair"))
 	}
-	o := &outcome{}
-	path := "/" + map[string]string{"call": "ctl", "push": "psh"}[c.kind] + "/" + c.shape
-	id := codecOf(c.shape)
-	if c.kind == "call" {
-		var result interface{}
-		switch c.shape {
-		case "json":
-			result = new(JRes)
-		case "pb":
-			result = new(secure.Encrypt)
-		default:
-			result = new([]byte)
-		}
-		cmd := cs.Call(path, c.arg, result, settings(c)...)
-		o.status = cmd.Status().Code()
-		if cmd.Status().OK() {
-			o.delivered = true
-			o.result = marshalWith(id, result)
-		}
-	} else {
-		st := cs.Push(path, c.arg, settings(c)...)
-		o.status = st.Code()
-		// a plain call behind the push, then wait for the server's handler contexts
-		cs.Call("/ctl/sync", []byte("{}"), new([]byte), erpc.WithBodyCodec('j'))
+	var outs []*outcome
+	for i, c := range msgs {
+		outs = append(outs, sendOne(cs, func() erpc.Session { return ss }, c, i))
 	}
-	erpc.VerifWaitHandlers(ss)
 	cs.Close()
 	select {
 	case <-ss.CloseNotify():
 	case <-time.After(waitLong):
 	}
-	hMu.Lock()
-	o.hCount, o.hArg = hCount, hArgSeen
-	hMu.Unlock()
 	tap.mu.Lock()
 	out, in := append([]byte(nil), tap.out...), append([]byte(nil), tap.in...)
 	tap.mu.Unlock()
-	want := erpc.TypeCall
-	if c.kind == "push" {
-		want = erpc.TypePush
+	for i, c := range msgs {
+		fillWire(outs[i], c, i, out, in)
 	}
-	for _, f := range parseFrames(out) {
-		if f.mtype == want && !o.reqSeen {
-			o.reqSeen, o.reqSec, o.reqHasSec, o.reqBody = true, f.secure, f.hasSec, f.body
-		}
-	}
-	if c.kind == "call" {
-		for _, f := range parseFrames(in) {
-			if f.mtype == erpc.TypeReply && !o.repSeen {
-				o.repSeen, o.repSec, o.repHasSec, o.repBody = true, f.secure, f.hasSec, f.body
-			}
-		}
-	}
-	o.outHasArg = bytes.Contains(out, []byte(c.argMark))
-	o.outHasRes = bytes.Contains(out, []byte(c.resMark))
-	o.inHasRes = bytes.Contains(in, []byte(c.resMark))
-	o.inHasArg = bytes.Contains(in, []byte(c.argMark))
-	return o
+	return outs
 }
 
 // ---- rendering
@@ -422,7 +499,7 @@ func vcase(c *caseCfg) string {
 	wrapT := VL(wrapOne(verC, ctArg), wrapOne(verS, ctRes))
 	return VL(VS(c.kind), VL(VB(verC), VB(verS)), vmarkerIn(c.xSecure), vmarkerIn(c.xAccept),
 		vmarkerIn(handlerMarker(c.enforce)),
-		VBool(c.handlerOK), VB(ptArg), VB(ptRes), VB(marshalWith(id, zeroA)), VB(marshalWith(id, zeroR)), encT, decT, wrapT)
+		VL(VS(c.hkind), VS(c.hret)), VB(ptArg), VB(ptRes), VB(marshalWith(id, zeroA)), VB(marshalWith(id, zeroR)), encT, decT, wrapT)
 }
 
 // ---- oracle on the implementation's own observations
@@ -444,7 +521,7 @@ func oracle(st *Stats, i int, c *caseCfg, o *outcome, human string) {
 	if o.inHasArg {
 		st.Fail(i, "arg-echoed-in-clear", "the plaintext argument came back on the wire", human)
 	}
-	if c.kind == "call" && c.handlerOK && o.hCount > 0 {
+	if c.kind == "call" && c.handlerOK() && o.hCount > 0 {
 		wantEnc := reqSecure || c.xAccept == "true" || c.enforce == "enforce" || c.enforce == "true"
 		if wantEnc && o.inHasRes {
 			key := "plaintext-result-on-wire"
@@ -461,7 +538,7 @@ func oracle(st *Stats, i int, c *caseCfg, o *outcome, human string) {
 			st.Fail(i, "arg-not-restored", "handler argument differs from the original", human)
 		}
 		if c.kind == "call" {
-			if c.handlerOK {
+			if c.handlerOK() {
 				if o.status != 0 || !o.delivered || !bytes.Equal(o.result, ptRes) {
 					st.Fail(i, "result-not-restored", Fmt("equal keys: caller status %d, result delivered=%v equal=%v", o.status, o.delivered, bytes.Equal(o.result, ptRes)), human)
 				}
@@ -488,7 +565,7 @@ func oracle(st *Stats, i int, c *caseCfg, o *outcome, human string) {
 		if o.reqSeen && !bytes.Equal(o.reqBody, ptArg) {
 			st.Fail(i, "unmarked-changed", "unmarked request body differs from the plain encoding", human)
 		}
-		if c.kind == "call" && c.handlerOK && o.repSeen && !bytes.Equal(o.repBody, ptRes) {
+		if c.kind == "call" && c.handlerOK() && o.repSeen && !bytes.Equal(o.repBody, ptRes) {
 			st.Fail(i, "unmarked-changed", "unmarked reply body differs from the plain encoding", human)
 		}
 		if o.hCount != 1 || !bytes.Equal(o.hArg, ptArg) {
@@ -526,7 +603,8 @@ func genCase(cfg *RunCfg) *caseCfg {
 	c.xSecure = []string{"", "true", "true", "true", "false", "TRUE", "1"}[r.Intn(7)]
 	c.xAccept = []string{"", "", "true", "false", "yes"}[r.Intn(5)]
 	c.enforce = []string{"", "", "", "enforce", "false", "TRUE", "true"}[r.Intn(7)]
-	c.handlerOK = r.Intn(8) != 0
+	c.hret = []string{"nil", "nil", "nil", "okobj", "okobj", "err"}[r.Intn(6)]
+	c.hkind = []string{"struct", "func"}[r.Intn(2)]
 	c.place = []string{"global", "route"}[r.Intn(2)]
 	c.argMark = "ARG" + randKey(cfg, 28)
 	c.resMark = "RES" + randKey(cfg, 28)
@@ -545,44 +623,94 @@ func genCase(cfg *RunCfg) *caseCfg {
 	return c
 }
 
-var modeFlag = flag.String("mode", "pair", "pair | raw")
+var modeFlag = flag.String("mode", "pair", "pair | raw | redial")
+
+func humanOf(c *caseCfg) string {
+	keys := "equal"
+	if c.kc != c.ks {
+		keys = "different"
+	}
+	return Fmt("kind=%s shape=%s handler=%s/%s place=%s keys=%s(%d/%d) X-Secure=%q X-Accept-Secure=%q handler-marker=%q", c.kind, c.shape, c.hkind, c.hret, c.place, keys, len(c.kc), len(c.ks), c.xSecure, c.xAccept, c.enforce)
+}
+
+func countCase(st *Stats, c *caseCfg, o *outcome) {
+	keys := "equal"
+	if c.kc != c.ks {
+		keys = "different"
+	}
+	st.Count("kind:" + c.kind)
+	st.Count("shape:" + c.shape)
+	st.Count("handler:" + c.hkind + "/" + c.hret)
+	st.Count("keys:" + keys + Fmt(":%d", len(c.kc)))
+	st.Count("x-secure:" + c.xSecure)
+	st.Count("x-accept:" + c.xAccept)
+	st.Count("handler-marker:" + c.enforce)
+	st.Count("status:" + statusSym(o.status))
+}
+
+// genSession draws 1..4 messages for one session: same keys and placement, everything else per
+// message (secure -> unmarked -> accept-only -> ..., calls and pushes mixed).
+func genSession(cfg *RunCfg) []*caseCfg {
+	n := 1 + cfg.Rng.Intn(4)
+	first := genCase(cfg)
+	msgs := []*caseCfg{first}
+	for len(msgs) < n {
+		c := genCase(cfg)
+		c.kc, c.ks, c.place = first.kc, first.ks, first.place
+		msgs = append(msgs, c)
+	}
+	return msgs
+}
 
 func main() {
 	cfg := ParseFlags()
 	Quiet()
-	if *modeFlag == "raw" {
+	switch *modeFlag {
+	case "raw":
 		runRaw(cfg)
+		return
+	case "redial":
+		runRedial(cfg)
 		return
 	}
 	st := NewStats("C17", cfg)
-	st.Rule = "case = kind {call,push} x body shape {json struct, json raw bytes, protobuf message} x keys {equal, different same length, different any length; 16/24/32 bytes} x X-Secure {absent,true,false,TRUE,1} x X-Accept-Secure {absent,true,false,yes} x handler reply marker {none, EnforceSecure, false, TRUE, true} x handler status {ok, error} x plugin placement {global, route}; distinct by all of these + values; non-trivial = some marker present or keys differ"
+	st.Rule = "case = one client/server session carrying 1..4 messages in sequence; per session: keys {equal, different same length, different any length; 16/24/32 bytes}, plugin placement {global, route}; per message: kind {call,push} x body shape {json struct, json raw bytes, protobuf message} x handler registration {struct controller, function} x handler status {nil, non-nil OK, error} x X-Secure {absent,true,false,TRUE,1} x X-Accept-Secure {absent,true,false,yes} x handler reply marker {none, EnforceSecure, false, TRUE, true}; evaluations = messages; distinct by all of these + values; non-trivial = some marker present or keys differ"
 	w := NewCaseWriter(cfg)
 	distinct := DistinctSet{}
-	for i := 0; i < cfg.N; i++ {
-		c := genCase(cfg)
-		o := runCase(c)
-		keys := "equal"
-		if c.kc != c.ks {
-			keys = "different"
+	evals := 0
+	for i := 0; evals < cfg.N; i++ {
+		msgs := genSession(cfg)
+		outs := runSession(msgs)
+		var ins, obs []string
+		seqHuman := Fmt("session of %d: ", len(msgs))
+		for k, c := range msgs {
+			seqHuman += Fmt("[%d] %s ; ", k, humanOf(c))
 		}
-		human := Fmt("kind=%s shape=%s place=%s keys=%s(%d/%d) X-Secure=%q X-Accept-Secure=%q handler-marker=%q handler-ok=%v", c.kind, c.shape, c.place, keys, len(c.kc), len(c.ks), c.xSecure, c.xAccept, c.enforce, c.handlerOK)
-		st.Count("kind:" + c.kind)
-		st.Count("shape:" + c.shape)
-		st.Count("keys:" + keys + Fmt(":%d", len(c.kc)))
-		st.Count("x-secure:" + c.xSecure)
-		st.Count("x-accept:" + c.xAccept)
-		st.Count("handler-marker:" + c.enforce)
-		st.Count("status:" + statusSym(o.status))
-		oracle(st, i, c, o, human)
-		w.Add(vcase(c), render(c, o))
-		if c.xSecure != "" || c.xAccept != "" || c.enforce != "" || c.kc != c.ks {
-			distinct.Add(human + c.argMark)
+		for k, c := range msgs {
+			o := outs[k]
+			evals++
+			countCase(st, c, o)
+			oracle(st, i, c, o, Fmt("message %d of ", k)+seqHuman)
+			ins = append(ins, vcase(c))
+			obs = append(obs, render(c, o))
+			if c.xSecure != "" || c.xAccept != "" || c.enforce != "" || c.kc != c.ks {
+				distinct.Add(humanOf(c) + c.argMark)
+			}
 		}
-		if len(st.Samples) < 6 {
-			st.Samples = append(st.Samples, human+" => status="+statusSym(o.status)+Fmt(" handler=%d req-enveloped=%v reply-marker=%v", o.hCount, o.reqHasSec, o.repHasSec))
+		st.Count(Fmt("session-length:%d", len(msgs)))
+		w.Add(VL(append([]string{VS("seq")}, ins...)...), VL(obs...))
+		if len(st.Samples) < 4 {
+			st.Samples = append(st.Samples, seqHuman+" => "+VL(obs...)[:min(300, len(VL(obs...)))])
 		}
 	}
-	st.Evaluations = cfg.N
+	st.Evaluations = evals
 	st.DistinctNontrivial = len(distinct)
 	st.Write(cfg, w)
+}
+
+func min(a, b int) int {
+	if a < b {
+		return a
+	}
+	return b
 }
